@@ -399,9 +399,36 @@ func (h *H) hypUpperHasLower() {
 	}
 }
 
+// hypAgreeOnKeys: the hypothesis AgreeOnKeys of cross_protocol_any_uni on Go's tables: the 128 ASCII runes, every key code
+// from KeyUp to KeyKeyPadBegin (+40) and a few values far above the Unicode range. Go's own verdict: above MaxRune every
+// predicate is false and the case maps are the identity; on ASCII the driver compares the rows with Spec.asciiUni.
+func (h *H) hypAgreeOnKeys() {
+	u := uniSet{}
+	res := "agree"
+	probe := func(r rune) {
+		u[r] = true
+		if r > unicode.MaxRune && (unicode.IsUpper(r) || unicode.IsLower(r) || unicode.IsLetter(r) || unicode.IsGraphic(r) ||
+			unicode.IsPrint(r) || unicode.ToUpper(r) != r || unicode.ToLower(r) != r) {
+			res = "differ"
+		}
+	}
+	for r := rune(0); r < 128; r++ {
+		probe(r)
+	}
+	for r := vaxis.KeyUp; r <= vaxis.KeyKeyPadBegin+40; r++ {
+		probe(r)
+	}
+	for _, r := range []rune{unicode.MaxRune + 1, 0x200000, 0x7FFFFFFF} {
+		probe(r)
+	}
+	h.r.Emit("hypk "+u.tok(), res)
+	h.r.Count("hypk:AgreeOnKeys:" + res)
+}
+
 func (h *H) uniStreams() {
 	h.hypAscii()
 	h.hypUpperHasLower()
+	h.hypAgreeOnKeys()
 	for _, x := range h.uniPoints() {
 		c, C := x, rune(0)
 		if unicode.IsUpper(x) {
